@@ -102,6 +102,16 @@ def run(prop, tier, seed, known):
                                     fails.append('match_events size depends on item order: %s vs %s' % (len(m), len(m2)))
                             if len(fails) > 5:
                                 break
+        # the same events far from the time origin (times up to the 30000 s sanity limit): the hit relation depends on differences only
+        for base in (0.0, 4096.0, 8192.0, 16384.0, 24576.0):
+            for offs, w in (((0.0, 1.0, 2.5), 0.05), ((0.0, 0.5, 1.0, 4.0), 0.0625), ((0.0, 3.0), 0.1)):
+                for lag in (0.0625, 0.125, -0.0625, 0.0):
+                    r = np.array([base + 8.0 + o for o in offs])
+                    e = r + lag
+                    rel = lambda i, j: abs(r[i] - e[j]) <= w
+                    n += 1
+                    m = util.match_events(r, e, w)
+                    check_matching([(int(a), int(b)) for a, b in m], len(r), len(e), rel, 'match_events(%s, %s, %s)' % (r.tolist(), e.tolist(), w), fails)
         # chroma branch
         for _ in range(1500 if tier == 'quick' else 15000):
             r = np.array([rng.randint(48, 84) + rng.choice([0, 0.25, 0.5]) for _ in range(rng.randint(0, 4))])
